@@ -337,7 +337,11 @@ def run_case(case) -> Result:
             for bit in op[3]:
                 cur ^= 1 << (bit % (8 * it.width))
             seg = cur.to_bytes(it.width, "big")
-            newblk = block[:it.pos] + seg + block[it.pos + it.width:]
+            if action == "poke":
+                # a wider outer update: items after this one (in table order) change too and must still be told about it
+                extra = max(0, min(6, packs.BLOCK - (it.pos + it.width)))
+                seg = seg + bytes(b ^ 0xFF for b in block[it.pos + it.width:it.pos + it.width + extra])
+            newblk = block[:it.pos] + seg + block[it.pos + len(seg):]
             if it.stored(block) == it.stored(newblk):
                 continue   # the item would not change: nothing fires
             acc = s.accessors[t]
